@@ -120,12 +120,16 @@ func interp(script []Step, skipUngiven bool) (obs []Obs) {
 	// pool member 4 is handed over as the handle slog.NewLogWriter returns for it (the same handle in every
 	// operation): a writer a user registers - and later removes - through the package's own wrapper
 	handle4 := slog.NewLogWriter(pool[4].(io.Writer))
+	handle2 := slog.NewLogWriter(pool[2].(io.Writer))
 	wr := func(i int) io.Writer {
 		if i == -9 {
 			return nil
 		}
 		if i == 4 {
 			return handle4
+		}
+		if i == 2 && caseSerial%2 == 1 {
+			return handle2 // the level-settable member behind the package's wrapper: it must still be told the severity
 		}
 		return pool[i].(io.Writer)
 	}
